@@ -1,5 +1,6 @@
 import NumbersModel.Drv.Proto
 import NumbersModel.Model.Refs
+import NumbersModel.Model.RefsSpec
 namespace NumbersModel.Drv
 open NumbersModel NumbersModel.Refs
 
@@ -70,9 +71,37 @@ def handleRefsStr (pinned : Bool) : List String → Option String
     | _ => none
   | _ => none
 
+def showB (b : Bool) : String := if b then "1" else "0"
+
+def showDenot : RefsSpec.Denot → String
+  | .cell r c ra ca => s!"C,{r},{c},{showB ra},{showB ca}"
+  | .row r a => s!"R,{r},{showB a}"
+  | .col c a => s!"L,{c},{showB a}"
+
+/-- `refs resolve <doc> <host> <text>`: the resolver SPEC (Model/RefsSpec.lean) applied to a printed text -/
+def handleRefsResolve : List String → Option String
+  | ns :: ws => do
+    let ns ← ns.toNat?
+    let (doc, ws) ← parseSheets 0 0 ns ws
+    match ws with
+    | [host, text] => do
+      let host ← host.toNat?
+      let text ← parseText text
+      match RefsSpec.resolveText doc host text with
+      | some (t, ds) =>
+        -- a single row / column may be printed as `x:x`: two equal ends are shown once
+        let ds := match ds with
+          | [a, b] => if a = b then [a] else ds
+          | _ => ds
+        pure s!"ok {t} {";".intercalate (ds.map showDenot)}"
+      | none => pure "none"
+    | _ => none
+  | _ => none
+
 def handleRefs : List String → Option String
   | "str" :: ws => handleRefsStr false ws
   | "strpinned" :: ws => handleRefsStr true ws
+  | "resolve" :: ws => handleRefsResolve ws
   | _ => none
 
 end NumbersModel.Drv
